@@ -181,6 +181,10 @@ class UnionUnpackerBuilder(AbstractUnpackerBuilder):
             )
         orig_lines = lines
         lines = CodeLines()
+        if any(arg in (NoneType, None) for arg in self.union_args):
+            # None is a member: it is never an input of another member
+            with lines.indent("if value is None:"):
+                lines.append("return None")
         unpackers = set()
         fallback_unpackers = []
         type_arg_unpackers = []
